@@ -142,6 +142,19 @@ theorem checkSeqConn_facts (s : Slave) (i : Nat) (nr : Nat) (hi : i < s.conns.le
       exact congrArg (fun cs => List.getD cs i ({} : Conn)) hf.1
     rw [this, conn_setConn _ _ _ hi]
 
+/-- `checkSequenceNumber` touches only the k-buffer of the connection (and the event queue of its group) -/
+theorem checkSeqConn_conn (s : Slave) (i : Nat) (nr : Nat) (hi : i < s.conns.length) :
+    ∃ w, (checkSeqConn s i nr).1.conn i = { s.conn i with win := w } := by
+  unfold checkSeqConn
+  simp only
+  generalize hcs : checkSeq (s.conn i).vs (s.conn i).win nr = cs
+  obtain ⟨ok, win', rel⟩ := cs
+  have hf := confirmReleased_facts rel (s.setConn i { s.conn i with win := win' }) i
+  have : (confirmReleased (s.setConn i { s.conn i with win := win' }) i rel).conn i
+      = (s.setConn i { s.conn i with win := win' }).conn i := by
+    exact congrArg (fun cs => List.getD cs i ({} : Conn)) hf.1
+  exact ⟨win', by simp only; rw [this, conn_setConn _ _ _ hi]⟩
+
 end Iec.Srv104
 
 namespace Iec.Srv104
